@@ -10,6 +10,9 @@ import GdVerif.Lemmas.Gs3Legacy
   layout `Config` says how each column is cut into field sections (any slices with any offsets, in any
   order, possibly repeated, as long as every value is sent — `covered`), which marker bytes precede
   them, how the sections are spread over 1..128 packets, and the challenge.  `Spec.wf` is the domain.
+  Extensions further down, each containing the one before as a special case: `ConfigX` / `wfX` (field
+  sections the response has no place for), `ConfigC` / `wfC` (packets that END INSIDE the value list of
+  their last section, the next packet continuing the field under its id and offset: `C04_gs3_query_cut`).
 -/
 open Gd Gd.Gs3 Gd.Gs3.Spec
 
